@@ -205,7 +205,7 @@ Section AdminCalls.
             else if has (to_open_mode flag) OpenCreateExcl then (s, inl (RFail EFileExists))
             else
               let d1 := if has (to_open_mode flag) OpenTruncate then [] else d in
-              let at_ := if has (to_open_mode flag) OpenAppend then Z.of_nat (length d1) else 0%Z in
+              let at_ := 0%Z in
               (with_heap s (upd (f_heap s) c (NFile d1 k i m)), inr (new_handle c vi (x :: name) at_ (to_open_mode flag)))
         | Some (NDir _ m) =>
             if has (to_open_mode flag) OpenCreateExcl then (s, inl (RFail EFileExists))
@@ -377,26 +377,27 @@ Section HandleCalls.
 
   Lemma f_read_clean n : clean_but None (snd (f_read s v f n)).
   Proof.
-    unfold f_read. destruct (hd_name f); [cl1|]. destruct (hd_node f); [|cl1].
+    unfold f_read. destruct (hd_name f); [cl1|]. destruct (hd_node f); [|cl1]. destruct (Z.leb n 0); [cl1|].
     destruct (file_of s _) as [[[[d k] i] m]|]; [|cl1]. destruct (negb _); [cl1|]. cbv zeta. destruct (Z.eqb _ 0); cl1.
   Qed.
 
   Lemma f_read_at_clean n off : clean_but None (f_read_at s v f n off).
   Proof.
-    unfold f_read_at. destruct (hd_name f); [cl1|]. destruct (hd_node f); [|cl1].
-    destruct (file_of s _) as [[[[d k] i] m]|]; [|cl1]. destruct (Z.ltb off 0); [cl1|]. destruct (negb _); [cl1|].
+    unfold f_read_at. destruct (Z.ltb off 0); [cl1|]. destruct (Z.leb n 0); [cl1|].
+    destruct (hd_name f); [cl1|]. destruct (hd_node f); [|cl1].
+    destruct (file_of s _) as [[[[d k] i] m]|]; [|cl1]. destruct (negb _); [cl1|].
     destruct (Z.ltb _ off); [cl1|]. cbv zeta. destruct (Z.ltb _ n); cl1.
   Qed.
 
   Lemma f_write_clean b : clean_but None (snd (f_write s v f b)).
   Proof.
     unfold f_write. destruct (hd_name f); [cl1|]. destruct (hd_node f); [|cl1].
-    destruct (file_of s _) as [[[[d k] i] m]|]; [|cl1]. destruct (negb _); cl1.
+    destruct (file_of s _) as [[[[d k] i] m]|]; [|cl1]. destruct (negb _); [cl1|]. destruct b; cl1.
   Qed.
 
   Lemma f_write_at_clean b off : clean_but None (snd (f_write_at s v f b off)).
   Proof.
-    unfold f_write_at. destruct (Z.ltb off 0); [cl1|]. destruct (hd_name f); [cl1|]. destruct (hd_node f); [|cl1].
+    unfold f_write_at. destruct (Z.ltb off 0); [cl1|]. destruct b; [cl1|]. destruct (hd_name f); [cl1|]. destruct (hd_node f); [|cl1].
     destruct (file_of s _) as [[[[d k] i] m]|]; [|cl1]. destruct (negb _); cl1.
   Qed.
 
@@ -410,7 +411,7 @@ Section HandleCalls.
 
   Lemma f_truncate_clean size : clean_but None (snd (f_truncate s v f size)).
   Proof.
-    unfold f_truncate. destruct (hd_name f); [cl1|]. destruct (Z.ltb size 0); [cl1|]. destruct (hd_node f); [|cl1].
+    unfold f_truncate. destruct (hd_name f); [cl1|]. destruct (hd_node f); [|cl1]. destruct (Z.ltb size 0); [cl1|].
     destruct (file_of s _) as [[[[d k] i] m]|]; [|cl1]. destruct (negb _); cl1.
   Qed.
 
